@@ -137,6 +137,7 @@ def do_call(w, alg, it, this, kind, d, ncols, dstmode, buf, tag='x', a=None, par
         if kind == 'ntt': it.call(NTT, [Ptr(this, 0), dst, Ptr(src, 0), n, ncols, bufp, nphase, nblock, 0, 0])
         else: it.call(INTT, [Ptr(this, 0), dst, Ptr(src, 0), n, ncols, bufp, nphase, nblock, 0])
         outo = dst.obj if dstmode == 'other' else src
+        if buf and n and ncols: min_buffer_check(it, bufp.obj, n, ncols, nblock, kind)
         if n == 0 or ncols == 0:
             if dstmode == 'other' and outo.cells: raise Violation('wrote-on-noop', 'size 0 / zero columns must be a no-op, destination was written')
             return [], xs, [], True
@@ -155,6 +156,26 @@ def do_call(w, alg, it, this, kind, d, ncols, dstmode, buf, tag='x', a=None, par
     same = True
     if not inplace: same = all(x is y for x, y in zip(before, core.words(inp)))
     return outs, xs, lde_coef(w, a, d), same
+def min_buffer_check(it, bo, n, ncols, nblock, kind):
+    """The harness hands over a caller buffer of n*ncols words so that the run itself never faults; the smallest buffer the interface admits is
+       the one the library allocates for itself when buffer == NULL: size * ceil(ncols / clamp(nblock, 1, ncols)) words.  For every effective
+       block count k the path condition admits, the words the call touched in the buffer must lie inside that extent (solver query on the
+       path condition; nblock is symbolic)."""
+    ext = (max(bo.cells) + 1) if bo.cells else 0
+    for k in range(1, ncols + 1):
+        need = n * ((ncols + k - 1) // k)
+        if ext <= need: continue
+        if is_c(nblock): hit = min(max(nblock, 1), ncols) == k
+        else:
+            nb = tobv(nblock, 64)
+            cond = z3.ULE(nb, bvv(1, 64)) if k == 1 else (z3.UGE(nb, bvv(ncols, 64)) if k == ncols else nb == bvv(k, 64))
+            if k == 1 and ncols == 1: cond = z3.BoolVal(True)
+            hit = it.feasible(cond)
+            if hit: it.pc.append(cond)      # the parameters reported with the violation are then taken from this class
+        if hit:
+            raise Violation('oob-write', '%s with a caller buffer of the size the library allocates for itself (size*ceil(ncols/nblock) = %d words for an effective nblock of %d) '
+                                         'touches buffer word %d, i.e. writes past the end of that buffer' % (kind.upper(), need, k, ext - 1))
+
 def _uninit(k, c): raise Violation('uninit-output', 'output word [%d][%d] was never written' % (k, c))
 
 def finish(w, it, this):
